@@ -224,6 +224,19 @@ fn judge(local: &mut Report, root: &Path, tals: &Path, crashed: &Path, ctx: &Val
                 ctx.clone(), json!({"class": c}));
         }
     }
+    if had_stored {
+        let mut before = Vec::new();
+        find_files(&root.join("base-cache").join("stored").join("rsync"), ".mft", &mut before);
+        for f in &before {
+            let fname = f.file_name().unwrap().to_string_lossy().into_owned();
+            if !classes.contains_key(&fname) {
+                classes.insert(fname.clone(), "absent".into());
+                local.violation("C23", &format!("stored-point-lost/{name}"),
+                    format!("after a kill at '{name}' the stored point {fname} that held a complete version before the run is gone: neither its previous nor its new version"),
+                    ctx.clone(), json!({"class": "absent"}));
+            }
+        }
+    }
     let status_class = classify_plain(&crashed.join("stored").join("status.bin"));
     if !allowed_status.contains(&status_class) {
         local.divergence("C23", format!("status file class {status_class} not in the model"));
@@ -377,52 +390,76 @@ fn scenario(rep: &Arc<Mutex<Report>>, factory: &Arc<Factory>, sc: &str,
 }
 
 const SYSCALLS: &str = "rename,renameat,renameat2,unlink,unlinkat,rmdir,ftruncate,mkdir,mkdirat";
-
-#[allow(clippy::too_many_arguments)]
+/// strace keeps the `when=k` counter per thread and per system call, and the
+/// whole process dies when any thread reaches its k-th call of any call in the
+/// set.  So each call is injected on its own: a call of the counting run is
+/// reachable when no other thread reaches the same index of the same call
+/// earlier.  The share of reachable calls is reported.
 fn syscall_pass(rep: &Arc<Mutex<Report>>, sc: &str, root: &Path, base: &Path, tals: &Path, killed_cmd: &[&str],
                 reference: &BTreeSet<String>, new_version: u64, old_version: u64,
                 allowed_point: &BTreeSet<String>, allowed_status: &BTreeSet<String>, had_stored: bool, args: &Args) {
-    let set = if args.thorough() { format!("{SYSCALLS},openat,creat,truncate") } else { SYSCALLS.to_string() };
-    // counting run
+    let union = if args.thorough() { format!("{SYSCALLS},openat,creat,truncate") } else { SYSCALLS.to_string() };
+    let sets: Vec<String> = union.split(',').map(|x| x.to_string()).collect();
+    // counting run (union): the global order of the calls
     let countc = root.join("caches").join("sys-count");
     copy_dir(base, &countc);
     let log = root.join("strace-count.log");
-    let wrapper: Vec<String> = vec!["strace".into(), "-f".into(), "-qq".into(), "-e".into(), format!("trace={set}"),
+    let wrapper: Vec<String> = vec!["strace".into(), "-f".into(), "-qq".into(), "-e".into(), format!("trace={union}"),
                                     "-o".into(), log.to_string_lossy().into(), "--".into()];
     let r = run_child_wrapped(root, &countc, tals, killed_cmd, &[], &wrapper);
     let text = std::fs::read_to_string(&log).unwrap_or_default();
-    let mut per_pid: BTreeMap<String, usize> = BTreeMap::new();
+    // (pid, syscall name) in log order
+    let mut calls: Vec<(String, String)> = Vec::new();
     for l in text.lines() {
         if let Some((pid, rest)) = l.split_once(' ') {
-            if rest.contains('(') && !rest.trim_start().starts_with("+++") && !rest.trim_start().starts_with("---") {
-                *per_pid.entry(pid.to_string()).or_insert(0) += 1;
+            let rest = rest.trim_start();
+            if rest.contains('(') && !rest.starts_with("+++") && !rest.starts_with("---") && !rest.starts_with("<...") {
+                calls.push((pid.to_string(), rest.split('(').next().unwrap_or("?").trim().to_string()));
             }
         }
     }
-    let kmax = per_pid.values().copied().max().unwrap_or(0);
-    if r.code != Some(0) || kmax == 0 {
-        rep.lock().unwrap().divergence("C23", format!("{sc}: strace counting run unusable (exit {:?}, {} calls): system-call pass skipped", r.code, kmax));
+    if r.code != Some(0) || calls.is_empty() {
+        rep.lock().unwrap().divergence("C23", format!("{sc}: strace counting run unusable (exit {:?}, {} calls): system-call pass skipped", r.code, calls.len()));
         rep.lock().unwrap().note("C23", "syscall_pass", json!("skipped"));
         return
     }
-    rep.lock().unwrap().note("C23", &format!("syscall_kill_points_{sc}"), json!(kmax));
-    let work = Arc::new(Mutex::new((1..=kmax).collect::<Vec<_>>().into_iter()));
+    // the injections to do: (set, k); and which calls of the counting run they reach
+    let mut jobs: Vec<(String, usize)> = Vec::new();
+    let mut reached: BTreeSet<usize> = BTreeSet::new();
+    for set in &sets {
+        let names: BTreeSet<&str> = set.split(',').collect();
+        let mut per_pid: BTreeMap<&str, usize> = BTreeMap::new();
+        let mut first_at: BTreeMap<usize, usize> = BTreeMap::new();   // index k -> position of the first call with that index
+        for (pos, (pid, name)) in calls.iter().enumerate() {
+            if !names.contains(name.as_str()) { continue }
+            let c = per_pid.entry(pid.as_str()).or_insert(0);
+            *c += 1;
+            first_at.entry(*c).or_insert(pos);
+        }
+        for (k, pos) in first_at {
+            jobs.push((set.clone(), k));
+            reached.insert(pos);
+        }
+    }
+    rep.lock().unwrap().note("C23", &format!("syscall_calls_{sc}"), json!(calls.len()));
+    rep.lock().unwrap().note("C23", &format!("syscall_calls_reached_{sc}"), json!(reached.len()));
+    rep.lock().unwrap().note("C23", &format!("syscall_kill_points_{sc}"), json!(jobs.len()));
+    let work = Arc::new(Mutex::new(jobs.into_iter().enumerate()));
     let nthreads = args.opt_usize("jobs", 10);
     std::thread::scope(|scope| {
         for t in 0..nthreads {
             let work = work.clone();
             let rep = rep.clone();
-            let set = set.clone();
             scope.spawn(move || loop {
-                let k = match work.lock().unwrap().next() { Some(k) => k, None => break };
+                let (j, (set, k)) = match work.lock().unwrap().next() { Some(x) => x, None => break };
                 let mut local = Report::new("storecrash");
-                let crashed = root.join("caches").join(format!("s{k}-t{t}"));
+                let crashed = root.join("caches").join(format!("s{j}-t{t}"));
                 copy_dir(base, &crashed);
-                let out_killed = format!("out-s{k}.csv");
+                let out_killed = format!("out-s{j}.csv");
                 let mut cmd: Vec<&str> = killed_cmd.to_vec();
                 let n = cmd.len();
                 cmd[n - 1] = &out_killed;
-                let slog = root.join(format!("strace-s{k}-t{t}.log"));
+                let slog = root.join(format!("strace-s{j}-t{t}.log"));
                 let wrapper: Vec<String> = vec!["strace".into(), "-f".into(), "-qq".into(), "-e".into(), format!("trace={set}"),
                     "-e".into(), format!("inject={set}:signal=SIGKILL:when={k}"), "-o".into(), slog.to_string_lossy().into(), "--".into()];
                 let r = run_child_wrapped(root, &crashed, tals, &cmd, &[], &wrapper);
@@ -435,11 +472,11 @@ fn syscall_pass(rep: &Arc<Mutex<Report>>, sc: &str, root: &Path, base: &Path, ta
                         call.split('(').next().unwrap_or("?").trim().to_string()
                     }).unwrap_or_else(|| "?".into());
                     let name = format!("syscall-{name}");
-                    let ctx = json!({"scenario": sc, "kill": "strace fault injection", "syscall_set": set, "when": k, "of": kmax, "syscall": name});
+                    let ctx = json!({"scenario": sc, "kill": "strace fault injection", "syscall_set": set, "when": k, "syscall": name});
                     local.eval("C23"); local.trace("C23");
-                    local.nontrivial("C23", format!("{sc}/sys/{k}"));
+                    local.nontrivial("C23", format!("{sc}/sys/{set}/{k}"));
                     judge(&mut local, root, tals, &crashed, &ctx, &name, reference, new_version, old_version,
-                          allowed_point, allowed_status, &format!("s{k}-t{t}"), had_stored);
+                          allowed_point, allowed_status, &format!("s{j}-t{t}"), had_stored);
                 }
                 let _ = std::fs::remove_dir_all(&crashed);
                 let _ = std::fs::remove_file(root.join(&out_killed));
